@@ -5,6 +5,7 @@ CONSTANTS
   InitRestated = TRUE
   OriginFromSuper = FALSE
   AllowModifyBusy = FALSE
+  SigCheck = FALSE
   Parent <- Chain3
   Mode = "shape3"
   QSels = {{}}
